@@ -61,7 +61,7 @@ fn main() {
             let maxops: u64 = arg("--maxops", "30").parse().unwrap();
             let depth: usize = arg("--depth", "3").parse().unwrap();
             let big = arg("--big", "0") == "1";
-            let o = if kind == "words" { gen::word_histories(seed, n) } else if kind == "large" { gen::large_histories(seed, n, mode == gen::Mode::Crash) } else if kind == "random" { gen::random_histories(seed, n, maxops, mode, big) } else { gen::exhaustive_histories(depth, mode, n, seed) };
+            let o = if kind == "empties" { gen::empties_histories(seed, n) } else if kind == "words" { gen::word_histories(seed, n) } else if kind == "large" { gen::large_histories(seed, n, mode == gen::Mode::Crash) } else if kind == "random" { gen::random_histories(seed, n, maxops, mode, big) } else { gen::exhaustive_histories(depth, mode, n, seed) };
             finish(&out, o);
         }
         "adv" => {
@@ -75,6 +75,7 @@ fn main() {
         "faults" => { finish(&out, gen::fault_histories(seed, n, arg("--maxops", "8").parse().unwrap())); }
         "tree" => { finish(&out, gen::tree_histories(seed, n, arg("--maxlen", "70").parse().unwrap())); }
         "layout" => { finish(&out, gen::layout_histories(seed, n, arg("--maxops", "14").parse().unwrap())); }
+        "script" => { finish(&out, gen::script(&arg("--file", "/dev/stdin"))); }
         "sched" => { finish(&out, sched::schedules(seed, n)); }
         "repl" => {
             let maxlen: u64 = arg("--maxlen", "20").parse().unwrap();
